@@ -16,7 +16,7 @@ def g(hours):
     return 0.01 * hours * hours + 0.1
 
 
-def run_layout(d, frame_hours, partition, start_h, stop_h, extra=True, check_frac=True):
+def run_layout(d, frame_hours, partition, start_h, stop_h, extra=True, check_frac=True, time_axis="seconds"):
     """frame_hours: sorted list of frame times (hours since epoch); partition: list of file sizes;
     start_h/stop_h: model start/stop (hours); reversed when stop < start.
     Returns list of failures (dicts)."""
@@ -30,15 +30,24 @@ def run_layout(d, frame_hours, partition, start_h, stop_h, extra=True, check_fra
     for fi, sz in enumerate(partition):
         hrs = frame_hours[pos : pos + sz]
         pos += sz
+        if time_axis == "days":  # float64 days since 1970: the frame times are NOT exactly representable (CF decoding rounds them to the second)
+            # (with the epoch at 00:10:00 the float value of every third hourly frame lies just BELOW its whole second)
+            e0 = int((EPOCH - np.datetime64("1970-01-01T00:00:00", "s")) / np.timedelta64(1, "s")) + 600
+            tkw = dict(times=[(e0 + h * 3600) / 86400.0 for h in hrs], units="days since 1970-01-01 00:00:00")
+            ttv = lambda tv: np.round((tv * 86400.0 - e0) / 3600.0, 6)  # noqa: E731  file time value -> hours since the epoch
+        else:
+            tkw = dict(times=[h * 3600 for h in hrs])
+            ttv = lambda tv: tv / 3600.0  # noqa: E731
         make_roms_file(
             d / f"f_{fi:03d}.nc",
-            times=[h * 3600 for h in hrs],
-            u=lambda t, tv, K, J, I: g(tv / 3600.0) + 0 * I,
-            v=lambda t, tv, K, J, I: -2 * g(tv / 3600.0) + 0 * I,
-            extra={"temp": lambda t, tv, K, J, I: 100.0 + tv / 3600.0 + 0 * I} if extra else None,
+            **tkw,
+            u=lambda t, tv, K, J, I: g(ttv(tv)) + 0 * I,
+            v=lambda t, tv, K, J, I: -2 * g(ttv(tv)) + 0 * I,
+            extra={"temp": lambda t, tv, K, J, I: 100.0 + ttv(tv) + 0 * I} if extra else None,
         )
     rev = stop_h < start_h
-    timer = TimeKeeper(start=EPOCH + np.timedelta64(start_h, "h"), stop=EPOCH + np.timedelta64(stop_h, "h"), dt=DT, time_reversal=rev)
+    epoch = EPOCH + np.timedelta64(600, "s") if time_axis == "days" else EPOCH
+    timer = TimeKeeper(start=epoch + np.timedelta64(start_h, "h"), stop=epoch + np.timedelta64(stop_h, "h"), dt=DT, time_reversal=rev)
     grid = Grid(d / "f_000.nc")
     state = State(instance_variables=dict(temp=float) if extra else None, default_values=dict(temp=0.0) if extra else None)
     state.append(X=np.array([3.2, 4.4]), Y=np.array([2.7, 3.1]), Z=np.array([5.0, 40.0]))
@@ -133,11 +142,17 @@ def forcing_layouts_bounded(p):
                         f = run_layout(d, fh, part, start_h, stop_h)
                     except BaseException as e:  # noqa: BLE001
                         f = [dict(what=f"raised {type(e).__name__}: {e}")]
+                    if not f and cases % 8 == 1:  # every eighth case again with a float time axis in days since 1970
+                        cases += 1
+                        try:
+                            f = [dict(x, time_axis="float64 days since 1970-01-01") for x in run_layout(d, fh, part, start_h, stop_h, time_axis="days")]
+                        except BaseException as e:  # noqa: BLE001
+                            f = [dict(what=f"raised {type(e).__name__}: {e}", time_axis="float64 days since 1970-01-01")]
                     if f:
                         failures.append(dict(frames_h=fh, files=part, start_h=start_h, stop_h=stop_h, first=f[0], nfail=len(f)))
                     elif len(samples) < 2:
                         samples.append(dict(frames_h=fh, files=part, start_h=start_h, stop_h=stop_h, checked="u lerp, temp latest frame, velocity(0.5), particle velocity, every step"))
-    return dict(cases=cases, failures=failures[:12], samples=samples, bound=f"{len(layouts)} frame layouts (spacing 1..5 dt, irregular) x file partitions (one file, one frame per file, halves, 1+rest+1) x start offsets 0..3 x 2 stops x forward/reversed, 1 h step")
+    return dict(cases=cases, failures=failures[:12], samples=samples, bound=f"{len(layouts)} frame layouts (spacing 1..5 dt, irregular) x file partitions (one file, one frame per file, halves, 1+rest+1) x start offsets 0..3 x 2 stops x forward/reversed, 1 h step; every eighth case also with the time axis in float64 days since 1970")
 
 
 def forcing_replay(p):
